@@ -98,7 +98,13 @@ def pool(ctx, quick):
             msgs.append({"ty": "L", "val": val})
     rnd = ctx.rnd
     combos = 32 if quick else 300
-    for _ in range(combos):
+    def natoms(val):
+        n = 0
+        for v in val.values():
+            n += len(v["xs"]) if v.get("k") == "list" else 2 * len(v["es"]) if v.get("k") == "map" else 0 if v.get("k") == "unset" else 1
+        return n
+    made = 0
+    while made < combos:
         k = rnd.choice([2, 2, 3])
         ns = rnd.sample(names, k)
         groups = [n for n in ns if n.startswith("e_")]
@@ -107,6 +113,9 @@ def pool(ctx, quick):
         val = dict(base)
         for n in ns:
             val[n] = rnd.choice(FIELD_VALUES[n])
+        if natoms(val) - natoms(base) > (6 if quick else 8):
+            continue          # (the state space of one message grows fast with the number of its atoms: keep the run bounded)
+        made += 1
         msgs.append({"ty": "L", "val": val})
     return schema, msgs
 
